@@ -6,8 +6,9 @@ V = os.path.dirname(os.path.dirname(os.path.abspath(__file__)))
 ALL = ["C%02d" % i for i in range(1, 21)]
 
 CHECKS = {}
+READY = [x.strip() for x in open(os.path.join(V, "harness", "ready.txt")).read().split() if x.strip()]
 for _f in sorted(os.listdir(os.path.join(V, "harness", "meta"))):
-    if _f.endswith(".json"):
+    if _f.endswith(".json") and _f[:-5] in READY:
         CHECKS[_f[:-5]] = json.load(open(os.path.join(V, "harness", "meta", _f)))
 
 NA_REASON = "check not built yet in this round; see DESIGN.md §6 for the planned model/theorems (will be claimed once its check passes on the unchanged tree)"
